@@ -242,7 +242,9 @@ def c18_splitprobe(ctx, seqrun, stats, divs):
         ctx.notes['split_probe'] = {'sessions': int(m.group(1)), 'by_value_async_resplits': int(m.group(2))}; stats.histories += int(m.group(1)); return
     mm = re.search(r'MISMATCH (.*)', out)
     what = mm.group(1) if mm else 'probe failed: ' + out[-600:]
-    ctx.violation('stack buffer split again (by reference / by value into async iterators): ' + what.rsplit(': ', 1)[-1][:300],
+    ctor = mm is not None and re.match(r'(Concurrent|Local)(Heap|Stack)RB', what) is not None
+    ctx.violation(('constructor ' + what[:300]) if ctor else
+                  'stack buffer split again (by reference / by value into async iterators): ' + what.rsplit(': ', 1)[-1][:300],
                   f'## replay: .build/cargo/debug/splitprobe {ctx.seed} {n}\n## sessions (each [...] is one split and what was done with its iterators): {what}\n', no_input=(mm is None))
 
 def c18_extra(ctx, seqrun, stats, divs):
